@@ -261,7 +261,18 @@ def over_sampled(mask, pixel_scales, origin, d, sub):
         br = aa.BorderRelocator(mask=mk, sub_size=sub)
         g = aa.Grid2D.from_mask(mask=mk, over_sampling=aa.OverSamplingUniform(sub_size=sub))
         pts = aa.Grid2DIrregular(values=wild + np.array(o))
+
+        def moved():
+            # an EXISTING grid with a per-pixel (adaptive) sub-size map, built at the base origin and used there, is translated to o
+            # (subtracted_from): the over-sampled grid of the translated object belongs to the translated object
+            b = (o[0] - shift[0], o[1] - shift[1])
+            mb = aa.Mask2D(mask=mask.copy(), pixel_scales=pixel_scales, origin=b)
+            per_pixel = aa.Array2D(values=[1 + (k + sub) % 3 for k in range(int((~mask).sum()))], mask=mb)
+            gb = aa.Grid2D.from_mask(mask=mb, over_sampling=aa.OverSamplingUniform(sub_size=per_pixel))
+            _ = np.asarray(gb.over_sampler.over_sampled_grid)
+            return gb.subtracted_from(offset=(-shift[0], -shift[1])).over_sampler.over_sampled_grid
         return [("OverSamplerUniform.over_sampled_grid", "coord", ov.over_sampled_grid),
+                _safe("over-sampled grid of a used adaptive grid translated by subtracted_from", "coord", moved),
                 _safe("Grid2D.over_sampler.over_sampled_grid", "coord", lambda: g.over_sampler.over_sampled_grid),
                 ("OverSamplerUniform.sub_total / slim_for_sub_slim", "same", ov.slim_for_sub_slim),
                 _safe("BorderRelocator.sub_grid", "coord", lambda: br.sub_grid),
